@@ -276,6 +276,16 @@ type Listener struct {
 	// ClosedErr, if set, is what Accept returns once the listener is closed (listeners that wrap
 	// others - multiplexers, in-memory listeners - have sentinels of their own, not net.ErrClosed).
 	ClosedErr error
+	acceptErr error
+}
+
+// FailAccept makes the pending (or next) Accept return err although the listener is not closed: the
+// kind of failure a real listener reports when the process runs out of descriptors.
+func (l *Listener) FailAccept(err error) {
+	l.mu.Lock()
+	l.acceptErr = err
+	l.mu.Unlock()
+	l.cond.Broadcast()
 }
 
 // NewListener returns a simulated listener.
@@ -306,6 +316,11 @@ func (l *Listener) Accept() (net.Conn, error) {
 	l.mu.Lock()
 	defer l.mu.Unlock()
 	for {
+		if l.acceptErr != nil {
+			err := l.acceptErr
+			l.acceptErr = nil
+			return nil, err
+		}
 		if l.closed {
 			if l.ClosedErr != nil {
 				return nil, l.ClosedErr
